@@ -63,7 +63,7 @@ def eval_fun(spec, k):
                 ph += spec["U"][i][j] * k[j]
             v += spec["T"][i] * math.sin(ph)
         out.append(v)
-    return out
+    return out          # (the singular terms spec["S"] are added by the runner only)
 
 
 def gen_sel(rng, n, tags, names=None, allow_bool=True):
@@ -92,6 +92,7 @@ def gen_case(rng, profile):
                         "C15": ["inside", "inside", "outside", "far"]}[profile])
     dist = {"inside": 0.6, "outside": 1.5, "far": 30.0}[where]
     kstar = [x0[j] + rnd(rng, -dist, dist) for j in range(n)]
+    check_limits = rng.random() >= {"C10": 0.35, "C09": 0.08, "C15": 0.08}[profile]
     vary = []
     for j in range(n):
         lim = None
@@ -105,6 +106,12 @@ def gen_case(rng, profile):
             if where == "inside":
                 lo, hi = min(lo, kstar[j] - 0.05), max(hi, kstar[j] + 0.05)
             lim = [lo, hi]
+            # one-sided limits: the other side None or infinite
+            if rng.random() < {"C10": 0.35, "C09": 0.08, "C15": 0.08}[profile]:
+                if kstar[j] < x0[j] or rng.random() < 0.25:
+                    lim[1] = rng.choice([None, None, float("inf")])       # keep the side the solution is beyond
+                else:
+                    lim[0] = rng.choice([None, None, float("-inf")])
         w = 1.0 if unit else rng.choice([1.0, 0.5, 2.0, 3.0, 0.1, 7.3, 1e-3, 40.0])
         ms = None
         if rng.random() < (0.6 if profile == "C10" else 0.3):
@@ -115,8 +122,9 @@ def gen_case(rng, profile):
         vary[0]["active"] = True
     if rng.random() < 0.03:
         j = rng.randrange(n)
-        if vary[j]["limits"] is not None:
-            x0[j] = vary[j]["limits"][1] + 0.5      # the constructor must refuse a start outside the limits
+        lj = vary[j]["limits"]
+        if check_limits and lj is not None and lj[1] is not None and math.isfinite(lj[1]):
+            x0[j] = lj[1] + 0.5      # the constructor must refuse a start outside the limits
             vary[j]["active"] = True
     vals = eval_fun(fun, kstar)
     targets = []
@@ -135,8 +143,31 @@ def gen_case(rng, profile):
         if rng.random() < 0.3:
             d = -d
         fun["fault"] = [j, x0[j] + d * rnd(rng, 0.05, 0.8), d]
+    # undefined (NaN) results: at the start point, on the way to the solution, or on a half line
+    fun["S"] = []
+    if rng.random() < {"C09": 0.30, "C10": 0.04, "C15": 0.06}[profile]:
+        for _ in range(rng.choice([1, 1, 2])):
+            i, j = rng.randrange(m), rng.randrange(n)
+            kind = rng.choice(["sinc", "zero_over", "sqrt", "log"])
+            place = rng.choice(["start", "start", "way", "far"])
+            if kind in ("sinc", "zero_over"):
+                c = {"start": x0[j], "way": x0[j] + 0.5 * (kstar[j] - x0[j]), "far": x0[j] + 7.3}[place]
+            else:   # undefined for k_j < c
+                c = {"start": x0[j] + rng.choice([0.0, 0.3]), "way": min(x0[j], kstar[j]) + 0.3 * abs(kstar[j] - x0[j]),
+                     "far": x0[j] - 7.3}[place]
+            fun["S"].append([kind, i, j, c, rnd(rng, 0.2, 1.5)])
+        # the other targets already met at the start (so that only the undefined ones decide), half of the time
+        if rng.random() < 0.5:
+            at0 = eval_fun(fun, x0)
+            hit = {e[1] for e in fun["S"]}
+            for i in range(m):
+                if i not in hit:
+                    targets[i]["value"] = at0[i]
+    if rng.random() < {"C09": 0.06, "C10": 0.01, "C15": 0.01}[profile]:
+        targets[rng.randrange(m)]["tol"] = None
     opts = {"n_steps_max": rng.choice([1, 2, 3, 5, 8, 12, 20, 25] if profile != "C09" else [2, 5, 8, 12, 20, 25, 25]), "assert_within_tol": rng.random() < 0.92,
-            "restore_if_fail": rng.random() < 0.8}
+            "restore_if_fail": rng.random() < 0.8,
+            "check_limits": check_limits}
     names = [f"k{j}" for j in range(n)]
     vt = [v["tag"] for v in vary]
     tt = [t["tag"] for t in targets]
@@ -340,15 +371,16 @@ def emit_case(case, res):
         return None
     N = new_interner()
     n = len(case["x0"])
-    lims = clist(["None" if v["limits"] is None else f"(Some ({cf(v['limits'][0])}, {cf(v['limits'][1])}))" for v in case["vary"]])
+    side = lambda x: "None" if x is None else f"(Some {cf(x)})"
+    lims = clist(["None" if v["limits"] is None else f"(Some ({side(v['limits'][0])}, {side(v['limits'][1])}))" for v in case["vary"]])
     steps = clist([cf(1e-10 if v["step"] is None else v["step"]) for v in case["vary"]])
     maxs = clist(["None" if v["max_step"] is None else f"(Some {cf(v['max_step'])})" for v in case["vary"]])
     o = case["opts"]
     cfg = (f"(mkCfg {cfl([v['weight'] for v in case['vary']])} {lims} {steps} {maxs} "
            f"{clist([cn(N(v['tag'])) for v in case['vary']])} {clist([cn(N(f'k{j}')) for j in range(n)])} "
-           f"{cfl([t['value'] for t in case['targets']])} {cfl([t['tol'] for t in case['targets']])} "
+           f"{cfl([t['value'] for t in case['targets']])} {cfl([float('nan') if t['tol'] is None else t['tol'] for t in case['targets']])} "
            f"{cfl([t['weight'] for t in case['targets']])} {clist([cn(N(t['tag'])) for t in case['targets']])} "
-           f"{o['n_steps_max']} {cbool(o['assert_within_tol'])} {cbool(o['restore_if_fail'])})")
+           f"{o['n_steps_max']} {cbool(o['assert_within_tol'])} {cbool(o['restore_if_fail'])} {cbool(o.get('check_limits', True))})")
     t = res["tables"]
     if not t["deterministic"]:
         return None
@@ -604,7 +636,20 @@ def run_property(ctx, pid, n_quick, n_thorough):
     ctx.samples = [{"case": cases[i], "outcomes": [s["out"] for s in results[i]["steps"]],
                     "final_knobs": results[i]["steps"][-1]["obs"]["knobs"], "log_rows": results[i]["steps"][-1]["obs"]["loglen"]}
                    for i in okc[:2]]
-    fails = [(i, f) for i, r in enumerate(results) for f in fails_of(r, pid)]
+    # known findings: a failure carrying the exact signature of a registered finding whose witness
+    # still fails is set aside (reported as KNOWN-FINDING); everything else is a violation
+    active = set()
+    for e in vlib.known_findings(pid):
+        if e.get("kind") == "known" and e.get("witness") is not None:
+            w = run_cases([e["witness"]], workers=1)[0]
+            still = any(f.get("signature") == e["signature"] for f in w.get(pid, []))
+            ctx.notes.append(f"known finding {e['signature']}: witness " + ("still fails" if still else "no longer fails"))
+            if still:
+                active.add(e["signature"])
+                vlib.known(ctx, e["text"])
+    set_aside = sum(1 for r in results for f in r.get(pid, []) if f.get("signature") in active)
+    ctx.cov["failures_set_aside_as_known_findings"] = set_aside
+    fails = [(i, f) for i, r in enumerate(results) for f in fails_of(r, pid) if f.get("signature") not in active]
     timeouts = [i for i, r in enumerate(results) if r["status"] == "timeout"]
     ctx.obligations.append(("correspondence: the model replays every recorded run (outcome, containers, flags, solver x, "
                             "masks, call counter, every log row) bit for bit", not mism, f"{len(mism)} mismatching of {len(cases) - len(outside)} traces"))
@@ -616,12 +661,13 @@ def run_property(ctx, pid, n_quick, n_thorough):
     # ---- decision ------------------------------------------------------------------------------
     if fails:
         i, f = fails[0]
-        small = shrink_case(cases[i], pid)
+        real = lambda rr: [x for x in fails_of(rr, pid) if x.get("signature") not in active]
+        small = shrink_case(cases[i], pid, lambda rr: bool(real(rr)))
         r = run_cases([small], workers=1)[0]
-        if not fails_of(r, pid):          # never store a replay that does not fail: fall back to the generated case
+        if not real(r):          # never store a replay that does not fail: fall back to the generated case
             small, r = cases[i], results[i]
-        f = fails_of(r, pid)[0] if fails_of(r, pid) else f
-        vlib.violation(ctx, {"kind": "oracle", "what": f["what"], "failures": (r.get(pid) or [f])[:5], "case": small,
+        f = real(r)[0] if real(r) else f
+        vlib.violation(ctx, {"kind": "oracle", "what": f["what"], "failures": (real(r) or [f])[:5], "case": small,
                              "outcomes": [s["out"] for s in r["steps"]], "n_failing_cases": len({k for k, _ in fails}),
                              "how_to_replay": f"./check {pid} --replay <this file>"})
     elif mism or alien or not proof_ok:
